@@ -27,7 +27,7 @@ from vlib.proto import C, T, is_c, is_t, show
 from vlib.symwalk import SymInterp
 from vlib.sym import Lin, equal
 from vlib.pat import Pat, returned
-from vlib.front import unparse, dotted, const_value
+from vlib.front import unparse, dotted, const_value, AnchorMissing
 
 A = 'phylib/io/array.py'
 TR = 'phylib/io/traces.py'
@@ -60,6 +60,47 @@ def _path_facts(st, nf):
             else:
                 extra.extend([dl, -dl])
     return extra
+
+
+def _consistent(st, nf):
+    """False when two comparisons taken on the path compare the same quantities (equal normal forms of b - a) with incompatible outcomes: the walk forks on
+    syntactically different terms (`i * s + s` vs `(i + 1) * s`), so such a path is not a path of the program."""
+    seen = {}
+    for key, rel_ in st.facts.items():
+        if isinstance(key, tuple) and key and key[0] == 'rel' and rel_ in ('<', '=', '>'):
+            try:
+                dl = nf(key[2]) - nf(key[1])
+            except Exception:
+                continue
+            for form, r in ((str(dl), rel_), (str(-dl), {'<': '>', '>': '<', '=': '='}[rel_])):
+                if seen.setdefault(form, r) != r:
+                    return False
+    return True
+
+
+def _jointly_consistent(I, base, st, nf):
+    """False when one comparison taken on the path is refuted by the others (each fact is tested against the forms the remaining facts make non-negative)."""
+    rels = [(key, rel_) for key, rel_ in st.facts.items() if isinstance(key, tuple) and key and key[0] == 'rel' and rel_ in ('<', '=', '>')]
+    saved = I.nonneg
+    try:
+        for key, rel_ in rels:
+            try:
+                dl = nf(key[2]) - nf(key[1])
+            except Exception:
+                continue
+
+            class _S:
+                facts = {k_: v_ for k_, v_ in rels if k_ is not key}
+            I.nonneg = list(base) + _path_facts(_S, nf)
+            if rel_ == '<' and I.ge0(-dl):
+                return False
+            if rel_ == '>' and I.ge0(dl):
+                return False
+            if rel_ == '=' and (I.sign(dl) == '+' or I.sign(-dl) == '+'):
+                return False
+    finally:
+        I.nonneg = saved
+    return True
 
 
 def s1_chunk_bounds(ctx):
@@ -188,12 +229,16 @@ def s2_excerpts(ctx):
     fi = repo.func(A, 'excerpts')
     n, k, size = (T('param', p) for p in fi.params[:3])
     I = ExInterp(repo, unroll=ctx.bound(2, 3), inline_depth=2, pos=[size], nonneg=[n, T('i')])
-    I.inline.add(repo.func(A, '_excerpt_step').node)
+    try:
+        I.inline.add(repo.func(A, '_excerpt_step').node)        # the step helper, when it exists (it may have been merged into its only caller)
+    except AnchorMissing:
+        pass
     outs = I.run(fi)
     ctx.analysed['paths'] += len(outs)
     nf = I.nf
     probs, und = {}, {}
     pairs = 0
+    base_nonneg = list(I.nonneg)
     for kind, val, st in outs:
         if kind != 'return':
             continue
@@ -204,10 +249,16 @@ def s2_excerpts(ctx):
                 probs.setdefault('excerpts yields %s, not (start, end)' % show(y)[:50], 1)
                 continue
             ts.append((nf(y[2]), nf(y[3])))
+        if not _consistent(st, nf) or not _jointly_consistent(I, base_nonneg, st, nf):
+            continue
+        # the comparisons taken on this path bound the yielded values as min() / max() do (`if n_samples < end: end = n_samples`)
+        I.nonneg = base_nonneg + _path_facts(st, nf)
         for (s, e) in ts:
             pairs += 1
             for what, d, bad in (('end - start - excerpt_size', e - s - nf(size), '+'), ('end - n_samples', e - nf(n), '+')):
                 sg = I.sign(d)
+                if I.ge0(-d):
+                    continue
                 if sg == bad:
                     probs.setdefault('%s = %s > 0' % (what, d), 1)
                 elif sg is None and I.interpreted(d):
@@ -227,6 +278,7 @@ def s2_excerpts(ctx):
                 und.setdefault('start(i+1) - end(i) = %s: sign unknown' % d, 1)
             if I.sign(s2 - s1) not in ('+', '>=0'):
                 und.setdefault('start(i+1) - start(i) = %s: sign unknown' % (s2 - s1), 1)
+    I.nonneg = base_nonneg
     # in-bounds start: every yield is dominated by the negation of `start >= n_samples`
     guard_ok = False
     for y in fi.yields():
@@ -302,8 +354,12 @@ def s2_excerpts(ctx):
             ctx.violated('C16.S2', ge, short[0], 'get_excerpts does not return the whole data when it is shorter than requested')
     else:
         cmp_any = [i for i in ge.nodes(ast.If) if 'len(%s)' % data in unparse(ge.expand(i.test)) or '%s.shape' % data in unparse(ge.expand(i.test))]
-        weak = [i for i in cmp_any if Pat().any(['len(%s) < %s' % (data, es), 'len(%s) <= %s' % (data, es), 'len(%s) < %s' % (data, ne), 'len(%s) <= %s' % (data, ne),
-                                                   'len(%s) < %s + %s' % (data, ne, es), 'len(%s) == 0' % data], ge.expand(i.test))]
+        def disjuncts(t_):
+            t_ = ge.expand(t_)
+            return list(t_.values) if isinstance(t_, ast.BoolOp) and isinstance(t_.op, ast.Or) else [t_]
+        weak = [i for i in cmp_any if any(Pat().any(['len(%s) < %s' % (data, es), 'len(%s) <= %s' % (data, es), 'len(%s) < %s' % (data, ne), 'len(%s) <= %s' % (data, ne),
+                                                       'len(%s) < %s + %s' % (data, ne, es), 'len(%s) == 0' % data], d_) for d_ in disjuncts(i.test)) and
+                not any('%s * %s' % (ne, es) in unparse(d_) or '%s * %s' % (es, ne) in unparse(d_) for d_ in disjuncts(i.test))]
         if weak:
             ctx.violated('C16.S2', ge, weak[0].test, 'the whole data is returned only when `%s`: data shorter than n_excerpts * excerpt_size but longer than that is cut into excerpts' % unparse(weak[0].test))
         elif cmp_any:
